@@ -84,6 +84,18 @@ func handleModule(raw json.RawMessage) interface{} {
 		// and of a method of that type
 		fmt.Fprintf(&sb, "如何%s险？\n    抛出异常：“x”！\n    拦截异常：\n        输出（%s辅助）\n\n如何%s造？\n    令物 = （新建%s类）\n    输出物之名\n\n", x, x, x, x)
 		fmt.Fprintf(&sb, "定义%s类：\n    其名 = “%s”\n\n    如何助？\n        输出（%s辅助）\n\n令%s私有 = 1\n（显示：“body-%s”）\n", x, x, x, x, m)
+		if c.More {
+			// a method that uses the names THIS module imported (methods of the modules it imports, a library function): it
+			// must work the same when it is called from the module's importer after the module's body has finished
+			items := []string{"“T”"}
+			for _, d := range deps {
+				items = append(items, "（"+modShort[d]+"方法）")
+			}
+			if c.Libs {
+				items = append(items, "（生成JSON：【“k” = 1】）")
+			}
+			fmt.Fprintf(&sb, "如何%s转？\n    输出以【%s】（拼接：“+”）\n", x, strings.Join(items, "，"))
+		}
 		p := modPath(dir, m)
 		os.MkdirAll(filepath.Dir(p), 0755)
 		os.WriteFile(p, []byte(sb.String()), 0644)
@@ -106,6 +118,7 @@ func handleModule(raw json.RawMessage) interface{} {
 			fmt.Fprintf(&sb, "如何试%s险？\n    输出（%s险）\n    拦截异常：\n        输出“ERR”\n\n", x, x)
 			fmt.Fprintf(&sb, "如何试%s造？\n    输出（%s造）\n    拦截异常：\n        输出“ERR”\n\n", x, x)
 			fmt.Fprintf(&sb, "如何试%s助？\n    令物 = （新建%s类）\n    输出以物（助）\n    拦截异常：\n        输出“ERR”\n\n", x, x)
+			fmt.Fprintf(&sb, "如何试%s转？\n    输出（%s转）\n    拦截异常：\n        输出“ERR”\n\n", x, x)
 		}
 	}
 	sb.WriteString("（显示：“body-main”）\n")
@@ -115,7 +128,7 @@ func handleModule(raw json.RawMessage) interface{} {
 	}
 	sb.WriteString("（显示：" + strings.Join(probes, "、") + "）\n")
 	if c.More {
-		for _, kind := range []string{"险", "造", "助"} {
+		for _, kind := range []string{"险", "造", "助", "转"} {
 			var ps []string
 			for _, m := range c.Mods {
 				x := modShort[m]
